@@ -175,14 +175,17 @@ def identify_ptms(residue, residue_ptms, known_ptms):
                 gm = nx.isomorphism.GraphMatcher(residue.subgraph(ptm_atoms), mod,
                                                  node_match=nx.isomorphism.categorical_node_match('atomname', ''))
                 match = list(gm.subgraph_isomorphisms_iter())
+                if not match:
+                    # The label was put on the whole residue when another
+                    # group of atoms was identified; it is not about these.
+                    continue
                 assert len(match) == 1
                 match = match[0]
                 cover.append((mod, match))
                 # (That would be here)
                 known_matched.update(match)
-            ptm_atoms -= known_matched
-            assert not ptm_atoms
-        else:
+            ptm_atoms = ptm_atoms - known_matched
+        if ptm_atoms:
             to_cover.update(ptm_atoms)
             to_cover.update(anchors)
     cover += _cover_graph(residue, to_cover, known_ptms)
